@@ -45,6 +45,7 @@ from OpenSSL import crypto
 
 from .buffer import Buffer, BufferReadError
 
+MAX_HANDSHAKE_MESSAGE_SIZE = 524288
 TLS_VERSION_1_2 = 0x0303
 TLS_VERSION_1_3 = 0x0304
 TLS_VERSION_1_3_DRAFT_28 = 0x7F1C
@@ -1385,6 +1386,9 @@ class Context:
             message_length = 4 + int.from_bytes(
                 self._receive_buffer[1:4], byteorder="big"
             )
+
+            if message_length > MAX_HANDSHAKE_MESSAGE_SIZE:
+                raise AlertIllegalParameter("Handshake message is too large")
 
             # check message is complete
             if len(self._receive_buffer) < message_length:
